@@ -2,12 +2,18 @@
    What is proved (models Ledger.v, VFile.v): the close callback runs only in
    ov_clear, once per source the library came to own, never after a failed
    open; no read/seek operation of the model ever modifies the tables built at
-   open (link table, page table) - the data every later seek is computed from.
+   open (link table, page table) - the data every later seek is computed from;
+   and the seek theorems of C07 hold from ANY handle state with an open file
+   (ready state OPENED, STREAMSET or INITSET; whatever queue, cursor, decoder and
+   position an earlier failed or successful call left behind): on an intact run
+   the sample seek reports exactly the target and is truthful, and it always
+   terminates (C03).  So a handle that saw a failure seeks like a clean one.
    That each faulted call returns a documented code, terminates, and that a
    seek after the fault behaves exactly like on a clean twin is established by
    systematic fault injection on every run (fault at callback invocation k, five
    fault kinds, one-shot and persisting). *)
-From VV Require Import Ledger Ledger_lemmas Blocking VFile VFile_lemmas.
+From VV Require Import Ledger Ledger_lemmas Blocking VFile VFile_lemmas Term_lemmas Sync_lemmas Seek_lemmas.
+From Coq Require Import ZArith.
 Local Open Scope Z_scope.
 
 Theorem C12_source_closed_only_by_clear :
@@ -42,3 +48,19 @@ Print Assumptions C12_tables_survive_every_operation.
 Example C12_nonvacuous :
   h_closes (hrun [OpenFail; Clear; OpenOk; Use; Use; Clear; Clear; TestOk; TestOpenFail; Clear]) = 1%nat.
 Proof. vm_compute. reflexivity. Qed.
+
+(* whatever an earlier call - failed or not - left in the handle: a sample seek whose executable hypotheses hold
+   succeeds, reports exactly the target and is truthful; the only parts of the state the statement looks at are
+   the tables (never modified, see above), the half-rate flag and that a file is open *)
+Theorem C12_seek_from_any_state_is_exact_and_truthful :
+  forall s pos, seek_hyps s pos = true ->
+    fst (pcm_seek s pos) = 0 /\ v_pcm (snd (pcm_seek s pos)) = pos /\
+    Truthful (auto_tail (snd (pcm_seek_page s pos))) (snd (pcm_seek s pos)) pos.
+Proof. exact pcm_seek_checked. Qed.
+Print Assumptions C12_seek_from_any_state_is_exact_and_truthful.
+
+(* and from any state, for any page table, the seek's loops terminate *)
+Theorem C12_seek_terminates_from_any_state :
+  forall k s pos, 0 <= v_hs s -> pcm_seek_x k s pos = pcm_seek s pos.
+Proof. exact pcm_seek_terminates. Qed.
+Print Assumptions C12_seek_terminates_from_any_state.
